@@ -20,6 +20,7 @@ Property oracle (independent of the model): the three frameworks' samples agree 
 region the statement covers.
 """
 import contextlib
+import copy
 import inspect
 import json
 import shutil
@@ -176,7 +177,7 @@ def stubbed_litdata(items):
     ld = E["ld"]
     old = (ld.StreamingDataset.__init__, ld.StreamingDataset.__getitem__)
     ld.StreamingDataset.__init__ = lambda self, *a, **k: None
-    ld.StreamingDataset.__getitem__ = lambda self, index: dict(items[index])
+    ld.StreamingDataset.__getitem__ = lambda self, index: copy.deepcopy(items[index])   # a fresh object per read
     try:
         yield
     finally:
@@ -191,8 +192,20 @@ def data_config(cfg):
                             "use_augmentations_train": False})
 
 
+def history_order(n):
+    """The read history every framework is driven through: each index is fetched three times, with
+    other indices in between whenever there are any (forward pass, backward pass, forward pass)."""
+    return list(range(n)) + list(range(n - 1, -1, -1)) + list(range(n))
+
+
+def read_history(ds, n):
+    """→ [(index, sample)] in `history_order`; the samples are deep copies taken at fetch time, so a
+    later fetch cannot retroactively change what an earlier one is recorded to have returned."""
+    return [(i, copy.deepcopy(ds[i])) for i in history_order(n)]
+
+
 def run_frameworks(spec, cfg, tmp):
-    """→ {fw: [sample dict per index]}, glue values (max_hw, max_instances), and per framework the
+    """→ {fw: read history [(index, sample)…]}, glue values (max_hw, max_instances), and per framework the
     number of samples each labelled frame gave (`"raise:<Class>"` where the chunk function raised)."""
     cd, gc, sd, prov, DC = E["cd"], E["gc"], E["sd"], E["prov"], E["DictConfig"]
     mt, scale, ms = cfg["mt"], cfg["scale"], cfg["max_stride"]
@@ -214,7 +227,7 @@ def run_frameworks(spec, cfg, tmp):
             ds = cd.CentroidDataset(lb, data_config(cfg), head, **kw)
         else:
             ds = cd.CenteredInstanceDataset(lb, data_config(cfg), tuple(cfg["crop"]), head, **kw)
-        out[fw] = [ds[i] for i in range(len(ds))]
+        out[fw] = read_history(ds, len(ds))
         owners = [t[0] for t in ds.instance_idx_list] if mt == "centered" else list(ds.lf_idx_list)
         counts[fw] = [owners.count(fi) for fi in range(len(spec["frames"]))]
     lb = build_labels(spec)
@@ -254,7 +267,7 @@ def run_frameworks(spec, cfg, tmp):
             ds = sd.CentroidStreamingDataset(**common)
         else:
             ds = sd.CenteredInstanceStreamingDataset(crop_hw=tuple(cfg["crop"]), input_scale=scale, **common)
-        out["stream"] = [ds[i] for i in range(len(items))]
+        out["stream"] = read_history(ds, len(items))
     return out, max_hw, max_inst, counts
 
 
@@ -609,13 +622,13 @@ def target_hw(cfg, max_hw):
     return (max_hw[0] if ch is None else ch, max_hw[1] if cw is None else cw)
 
 
-def model_line(fw, spec, cfg, fr, k, max_hw, max_inst, alias, single_one):
+def model_line(fw, spec, cfg, fr, k, max_hw, max_inst, alias):
     v = spec["videos"][fr["video"]]
     o = lambda x: "-1" if x is None else str(x)
     cm_h, cm_w = cfg["cfg_max"] if cfg["cfg_max"] else (None, None)
     toks = ["sample", fw, cfg["mt"], "1" if cfg["is_rgb"] else "0", str(max_hw[0]), str(max_hw[1]),
             o(cm_h), o(cm_w), rat(float(cfg["scale"])), str(cfg["max_stride"]), str(cfg["crop"][0]),
-            str(cfg["crop"][1]), o(cfg["anchor"]), str(max_inst), "1" if alias else "0", "1" if single_one else "0",
+            str(cfg["crop"][1]), o(cfg["anchor"]), str(max_inst), "1" if alias else "0",
             rat(float(cfg["cm"][0])), str(cfg["cm"][1]), rat(float(cfg["paf"][0])), str(cfg["paf"][1]),
             str(len(spec["edges"]))] + [f"{u} {w}" for u, w in spec["edges"]]
     toks += [str(v["h"]), str(v["w"]), str(v["c"]), str(k), str(len(fr["insts"]))]
@@ -672,7 +685,7 @@ def signatures(spec, cfg, max_hw, max_inst, frame=None):
     if cfg["cfg_max"] is not None and target_hw(cfg, max_hw) != tuple(max_hw):
         sig.append("cfg_max_hw_differs_from_labels_max_hw")          # F-C18a (fixed: suppresses nothing)
     if cfg["mt"] == "single" and max_inst != 1:
-        sig.append("single_labels_max_instances_ne_1")                # F-C18b
+        sig.append("single_labels_max_instances_ne_1")                # F-C18b (fixed: suppresses nothing)
     if frame is not None and all(all(q is None for q in p) for p in frame["insts"]):
         sig.append("frame_with_only_empty_instances")                 # F-C18c
     return sig
@@ -711,26 +724,45 @@ def run_case(chk, spec, cfg, alias, tmp, tag, do_model=True):
                      signatures(spec, cfg, max_hw, max_inst, fr))
         chk.tag("frame_counts_checked")
     idx = sample_index(spec, mt)
+    hist = history_order(len(idx))
     for fw in FWS:
-        if len(fwout[fw]) != len(idx):
-            chk.disagree("number of samples per framework", case, {f: len(fwout[f]) for f in FWS}, len(idx))
-            chk.fail(f"framework {fw} yields {len(fwout[fw])} samples, expected {len(idx)}", case,
-                     {f: len(fwout[f]) for f in FWS}, signatures(spec, cfg, max_hw, max_inst))
+        if len(fwout[fw]) != len(hist):
+            n_fw = {f: len(fwout[f]) // 3 for f in FWS}
+            chk.disagree("number of samples per framework", case, n_fw, len(idx))
+            chk.fail(f"framework {fw} yields {n_fw[fw]} samples, expected {len(idx)}", case,
+                     n_fw, signatures(spec, cfg, max_hw, max_inst))
             return 0, ["sample count"]
     in_region = covered(cfg)
     exact = eff_is_exact(spec, cfg, max_hw)
     mag = 2.0 * max(target_hw(cfg, max_hw)) * max(1.0, float(cfg["scale"]))
-    single_one = E["single_one"]
     lines, keys = [], []
     for i, (fr, k) in enumerate(idx):
         for fw in FWS:
             if do_model:
-                lines.append(model_line(fw, spec, cfg, fr, k, max_hw, max_inst, alias, single_one))
+                lines.append(model_line(fw, spec, cfg, fr, k, max_hw, max_inst, alias))
                 keys.append((i, fw))
     models = dict(zip(keys, run_driver("C18.lean", lines))) if lines else {}
-    for i, (fr, k) in enumerate(idx):
+    first_cs = {}
+    for pos, i in enumerate(hist):
+        fr, k = idx[i]
+        cs = {fw: canon(mt, fwout[fw][pos][1]) for fw in FWS}
+        refetch = pos >= len(idx)
+        here = {**case, "index": i, "k": k}
+        if not refetch:
+            first_cs[i] = cs
+        else:
+            # every framework is driven through the same read history; a sample is a function of its
+            # index, so a later fetch must return what the first fetch returned (model: `sampleOf` has no
+            # state).  Only a fetch that differs is re-examined in full.
+            here = {**here, "read_history": hist, "position": pos, "fetch_number": hist[:pos + 1].count(i)}
+            changed = [fw for fw in FWS if not same_canon(cs[fw], first_cs[i][fw])]
+            chk.tag("refetch_checked")
+            if not changed:
+                continue
+            for fw in changed:
+                chk.disagree(f"{fw} {mt}: fetch #{here['fetch_number']} of an index returns what fetch #1 returned",
+                             here, describe_change(first_cs[i][fw], cs[fw]), "identical")
         raw = frame_image(spec, fr)
-        cs = {fw: canon(mt, fwout[fw][i]) for fw in FWS}
         has_empty = any(all(q is None for q in p) for p in fr["insts"])
         bad = False
         for fw in FWS:
@@ -745,10 +777,9 @@ def run_case(chk, spec, cfg, alias, tmp, tag, do_model=True):
             diffs = compare_model(mt, m, cs[fw], raw, exact, mag)
             if diffs:
                 bad = True
-                chk.disagree(f"sampleOf {fw} {mt} == real framework", {**case, "index": i, "k": k},
-                             diffs[:4], line[:600])
+                chk.disagree(f"sampleOf {fw} {mt} == real framework", here, diffs[:4], line[:600])
         # hypotheses of `np_stream_pixels_equal`, on this real image: padding commutes with the round trip
-        if do_model and mt != "centered" and (i, "mem") in models and models[(i, "mem")].startswith("ok "):
+        if do_model and not refetch and mt != "centered" and (i, "mem") in models and models[(i, "mem")].startswith("ok "):
             t = parse_model(models[(i, "mem")])["img"]
             if t[0] == "pad":
                 u = t[-1]
@@ -761,8 +792,10 @@ def run_case(chk, spec, cfg, alias, tmp, tag, do_model=True):
         fails = oracle(mt, cs, has_empty, mag) if in_region else []
         if fails:
             all_fails += fails
-            chk.fail(f"C18 fails ({mt}, scale {cfg['scale']}): " + "; ".join(fails[:3]),
-                     {**case, "index": i, "k": k}, fails[:6], signatures(spec, cfg, max_hw, max_inst))
+            chk.fail(f"C18 fails ({mt}, scale {cfg['scale']}" + (f", fetch #{here['fetch_number']} of the index" if refetch else "")
+                     + "): " + "; ".join(fails[:3]), here, fails[:6], signatures(spec, cfg, max_hw, max_inst))
+        if refetch:
+            continue
         nz = sum(1 for p in fr["insts"] for q in p if q is not None)
         chk.case((tag, mt, cfg["scale"], cfg["max_stride"], cfg["is_rgb"], json.dumps(fr["insts"]), k) if nz else None,
                  {"mt": mt, "cfg": cfg, "frame": fr, "k": k,
@@ -773,6 +806,23 @@ def run_case(chk, spec, cfg, alias, tmp, tag, do_model=True):
                        f"videos:{len(spec['videos'])}" + ("(different sizes)" if len({(v['h'], v['w']) for v in spec['videos']}) > 1 else ""),
                        "cfg_max:" + ("none" if not cfg["cfg_max"] else "both" if None not in cfg["cfg_max"] else "one component")])
     return len(idx), all_fails
+
+
+def same_canon(a, b):
+    return all(teq(a[k], b[k]) for k in ("img", "inst", "cen", "bbox")) and a["n"] == b["n"] and a["rank"] == b["rank"] \
+        and len(a["tgt"]) == len(b["tgt"]) and all(teq(x, y) for x, y in zip(a["tgt"], b["tgt"]))
+
+
+def describe_change(a, b):
+    out = []
+    for k in ("img", "inst", "cen", "bbox"):
+        if not teq(a[k], b[k]):
+            d = close_pts(a[k], b[k], 0.0) if k != "img" else close_img(a[k], b[k], 0.0)
+            out.append(f"{k}: {d}")
+    for j, (x, y) in enumerate(zip(a["tgt"], b["tgt"])):
+        if not teq(x, y):
+            out.append(f"target#{j}: {close_img(x, y, 0.0)}")
+    return out[:4]
 
 
 # ------------------------------------------------------------------ DataPipe blocks
@@ -1044,20 +1094,6 @@ def probe_alias():
     return not bool(torch.isnan(x[0, 0, 0]).any())
 
 
-def probe_single_one(tmp):
-    """Does `SingleInstanceDataset` hand `max_instances = 1` to `process_lf` (F-C18b repaired)?  Observed
-    on the real class: labels whose only frame has one animal and one empty instance."""
-    spec = {"n_nodes": 2, "edges": [[0, 1]], "videos": [{"h": 32, "w": 32, "c": 1, "n": 1, "seed": 1}],
-            "frames": [{"video": 0, "t": 0, "insts": [[[8.0, 8.0], [16.0, 12.0]], [None, None]]}]}
-    cfg = {"mt": "single", "is_rgb": False, "scale": 1.0, "max_stride": 1, "crop": (16, 16), "anchor": None,
-           "cm": (1.5, 2), "paf": (4.0, 4), "cfg_max": None}
-    DC = E["DictConfig"]
-    ds = E["cd"].SingleInstanceDataset(build_labels(spec), data_config(cfg),
-                                       DC({"sigma": 1.5, "output_stride": 2, "anchor_part": None}),
-                                       max_stride=1, scale=1.0, max_hw=(32, 32))
-    return int(ds[0]["instances"].shape[1]) == 1
-
-
 def main(chk: Check):
     chk.build_and_audit()
     import_repo()
@@ -1068,8 +1104,6 @@ def main(chk: Check):
     chk.extra["generate_centroids_writes_through"] = alias
     tmp = tempfile.mkdtemp(prefix="verif_c18_")
     try:
-        E["single_one"] = probe_single_one(tmp)
-        chk.extra["single_instance_dataset_max_instances_is_1"] = E["single_one"]
         replay_findings(chk, alias, tmp)
         # corpus first
         cdir = VERIF / "corpus" / "C18"
@@ -1092,13 +1126,14 @@ def main(chk: Check):
         for _ in range(chk.n(4, 30)):
             sc = rng.choice([0.5, 0.75, 1.5, 2.0])
             run_case(chk, *gen_case(rng, mt="centered", scale=sc), alias, tmp, "centered_scaled")
-        # (3) regions of the `known` findings: model correspondence (the model says what each framework
-        #     does there) + oracle; failures must carry the finding's signature to be accepted
+        # (3) single-animal labels with a stray second (empty) instance — covered since b2232cf (F-C18b
+        #     fixed) — and the region of the `known` finding F-C18c (a frame with only empty instances):
+        #     model correspondence + oracle; failures there must carry that finding's signature
         n_ex = 0
         for _ in range(chk.n(3, 20)):
             sc = rng.choice([1.0, 1.0, 0.5, 1.5])
             k, _ = run_case(chk, *gen_case(rng, mt="single", scale=sc, extra="single_extra"), alias, tmp,
-                            "F-C18b_single_extra_instance")
+                            "single_extra_instance")
             n_ex += k
         for _ in range(chk.n(3, 20)):
             mt = rng.choice(MTS)
@@ -1119,7 +1154,6 @@ def replay(chk: Check, payload):
     alias = probe_alias()
     tmp = tempfile.mkdtemp(prefix="verif_c18_")
     try:
-        E["single_one"] = probe_single_one(tmp)
         if "spec" in case:
             n, fails = run_case(chk, case["spec"], case["cfg"], alias, tmp, "replay")
             print(f"replay: {n} samples, oracle failures: {fails[:4]}")
@@ -1156,8 +1190,7 @@ if __name__ == "__main__":
              "blocks: distinct driver lines",
         assumptions=[
             "augmentation disabled (apply_aug=False): augmentation is random and not part of the statement",
-            "outside the F-C18c region every frame has at least one non-empty user instance; outside the F-C18b region "
-            "single-instance labels have exactly one instance per frame",
+            "outside the F-C18c region every frame has at least one non-empty user instance",
             "the chunk functions are applied to every labelled frame, as training/get_bin_files.py does",
             "sizes whose size-matched target falls exactly on .5 before round() are knife-edges (skipped, counted)",
         ],
